@@ -32,7 +32,7 @@ type gEntry struct {
 	block bool
 }
 
-func (e *gEntry) Step() common.Step { return common.AsStep(common.Slot(e.slot), e.block) }
+func (e *gEntry) Step() common.Step                { return common.AsStep(common.Slot(e.slot), e.block) }
 func (e *gEntry) BlockRoot() (common.Root, error)  { return e.rec.root, nil }
 func (e *gEntry) ParentRoot() (common.Root, error) { return e.rec.parent, nil }
 func (e *gEntry) StateRoot() (common.Root, error) {
@@ -56,10 +56,10 @@ type gossipNode struct {
 	advanced map[string]*stateBox
 }
 
-func (g *gossipNode) Spec() *common.Spec { return g.s.w.spec }
-func (g *gossipNode) Chain() beacon.Chain { return g }
+func (g *gossipNode) Spec() *common.Spec                 { return g.s.w.spec }
+func (g *gossipNode) Chain() beacon.Chain                { return g }
 func (g *gossipNode) GenesisValidatorsRoot() common.Root { return g.s.w.gvr }
-func (g *gossipNode) IsBadBlock(root common.Root) bool  { return false }
+func (g *gossipNode) IsBadBlock(root common.Root) bool   { return false }
 func (g *gossipNode) SlotAfter(delta time.Duration) common.Slot {
 	t := g.nowMs + delta.Milliseconds()
 	if t < 0 {
@@ -201,11 +201,11 @@ func (g *gossipNode) InSubtree(anchor common.Root, root common.Root) (unknown bo
 	return false, false
 }
 func (g *gossipNode) ByCanonStep(step common.Step) (beacon.ChainEntry, bool) { return nil, false }
-func (g *gossipNode) Iter() (beacon.ChainIter, error)                         { return nil, errors.New("unused") }
-func (g *gossipNode) JustifiedCheckpoint() common.Checkpoint                  { return g.finCP }
-func (g *gossipNode) FinalizedCheckpoint() common.Checkpoint                  { return g.finCP }
-func (g *gossipNode) Justified() (beacon.ChainEntry, error)                   { return nil, errors.New("unused") }
-func (g *gossipNode) Finalized() (beacon.ChainEntry, error)                   { return nil, errors.New("unused") }
+func (g *gossipNode) Iter() (beacon.ChainIter, error)                        { return nil, errors.New("unused") }
+func (g *gossipNode) JustifiedCheckpoint() common.Checkpoint                 { return g.finCP }
+func (g *gossipNode) FinalizedCheckpoint() common.Checkpoint                 { return g.finCP }
+func (g *gossipNode) Justified() (beacon.ChainEntry, error)                  { return nil, errors.New("unused") }
+func (g *gossipNode) Finalized() (beacon.ChainEntry, error)                  { return nil, errors.New("unused") }
 func (g *gossipNode) Head() (beacon.ChainEntry, error) {
 	return &gEntry{g, g.head, g.head.post, g.head.slot, true}, nil
 }
@@ -449,49 +449,76 @@ func (s *sim) gossipSlot(slot uint64, blk *blockRec, parent *blockRec, hb *state
 				_, p := func() ([]common.ValidatorIndex, *panicInfo) { return nil, nil }()
 				_ = p
 				var res gossipval.GossipValidatorResult
-				res, p = validate(func() gossipval.GossipValidatorResult { _, x := gossipval.ValidateAttestation(ctx, subnet, &bad, g); return x })
+				res, p = validate(func() gossipval.GossipValidatorResult {
+					_, x := gossipval.ValidateAttestation(ctx, subnet, &bad, g)
+					return x
+				})
 				s.judge(g, "attestation", what+" with a corrupted signature", expInvalid, res, p)
 			case mode == 1:
-				res, p := validate(func() gossipval.GossipValidatorResult { _, x := gossipval.ValidateAttestation(ctx, (subnet+1)%64, att, g); return x })
+				res, p := validate(func() gossipval.GossipValidatorResult {
+					_, x := gossipval.ValidateAttestation(ctx, (subnet+1)%64, att, g)
+					return x
+				})
 				s.judge(g, "attestation", what+" on the wrong subnet", expInvalid, res, p)
 			case mode == 2 && len(comm) > 1:
 				bad := *att
 				bad.AggregationBits = bits.Copy()
 				bad.AggregationBits.SetBit(uint64((pos+1)%len(comm)), true)
-				res, p := validate(func() gossipval.GossipValidatorResult { _, x := gossipval.ValidateAttestation(ctx, subnet, &bad, g); return x })
+				res, p := validate(func() gossipval.GossipValidatorResult {
+					_, x := gossipval.ValidateAttestation(ctx, subnet, &bad, g)
+					return x
+				})
 				s.judge(g, "attestation", what+" with two bits set", expInvalid, res, p)
 			case mode == 3:
 				bad := *att
 				bad.Data.Target.Epoch++
-				res, p := validate(func() gossipval.GossipValidatorResult { _, x := gossipval.ValidateAttestation(ctx, subnet, &bad, g); return x })
+				res, p := validate(func() gossipval.GossipValidatorResult {
+					_, x := gossipval.ValidateAttestation(ctx, subnet, &bad, g)
+					return x
+				})
 				s.judge(g, "attestation", what+" whose target epoch is not the slot's epoch", expInvalid, res, p)
 			case mode == 4:
 				bad := *att
 				bad.Data.Index = common.CommitteeIndex(cnt)
-				res, p := validate(func() gossipval.GossipValidatorResult { _, x := gossipval.ValidateAttestation(ctx, subnet, &bad, g); return x })
+				res, p := validate(func() gossipval.GossipValidatorResult {
+					_, x := gossipval.ValidateAttestation(ctx, subnet, &bad, g)
+					return x
+				})
 				s.judge(g, "attestation", what+" with a committee index out of range", expInvalid, res, p)
 			case mode == 5: // clock far behind: the vote is from the future
 				save := g.nowMs
 				g.nowMs = int64(slot)*msPerSlot - msPerSlot - 600
 				if g.nowMs >= 0 {
-					res, p := validate(func() gossipval.GossipValidatorResult { _, x := gossipval.ValidateAttestation(ctx, subnet, att, g); return x })
+					res, p := validate(func() gossipval.GossipValidatorResult {
+						_, x := gossipval.ValidateAttestation(ctx, subnet, att, g)
+						return x
+					})
 					s.judge(g, "attestation", what+" from the future (clock skew)", expTiming, res, p)
 				}
 				g.nowMs = save
 			case mode == 6: // clock far ahead: beyond the propagation range
 				save := g.nowMs
 				g.nowMs = int64(slot+34) * msPerSlot
-				res, p := validate(func() gossipval.GossipValidatorResult { _, x := gossipval.ValidateAttestation(ctx, subnet, att, g); return x })
+				res, p := validate(func() gossipval.GossipValidatorResult {
+					_, x := gossipval.ValidateAttestation(ctx, subnet, att, g)
+					return x
+				})
 				s.judge(g, "attestation", what+" older than the propagation range", expTiming, res, p)
 				g.nowMs = save
 			case mode == 7 && head != w.genesis: // voted block not yet seen
 				delete(g.known, head.root)
-				res, p := validate(func() gossipval.GossipValidatorResult { _, x := gossipval.ValidateAttestation(ctx, subnet, att, g); return x })
+				res, p := validate(func() gossipval.GossipValidatorResult {
+					_, x := gossipval.ValidateAttestation(ctx, subnet, att, g)
+					return x
+				})
 				s.judge(g, "attestation", what+" for a block not seen yet", expTiming, res, p)
 				g.known[head.root] = true
 			case mode == 8: // the shuffling state cannot be reached in time
 				g.timeout = true
-				res, p := validate(func() gossipval.GossipValidatorResult { _, x := gossipval.ValidateAttestation(ctx, subnet, att, g); return x })
+				res, p := validate(func() gossipval.GossipValidatorResult {
+					_, x := gossipval.ValidateAttestation(ctx, subnet, att, g)
+					return x
+				})
 				s.judge(g, "attestation", what+" while the target state is unavailable (timeout)", expTiming, res, p)
 				g.timeout = false
 			}
@@ -502,13 +529,19 @@ func (s *sim) gossipSlot(slot uint64, blk *blockRec, parent *blockRec, hb *state
 			if g.seen[seenKey] {
 				exp = expTiming
 			}
-			res, p := validate(func() gossipval.GossipValidatorResult { _, x := gossipval.ValidateAttestation(ctx, subnet, att, g); return x })
+			res, p := validate(func() gossipval.GossipValidatorResult {
+				_, x := gossipval.ValidateAttestation(ctx, subnet, att, g)
+				return x
+			})
 			s.judge(g, "attestation", what, exp, res, p)
 			if s.stop {
 				return
 			}
 			if r.Chance(1, 4) {
-				res, p = validate(func() gossipval.GossipValidatorResult { _, x := gossipval.ValidateAttestation(ctx, subnet, att, g); return x })
+				res, p = validate(func() gossipval.GossipValidatorResult {
+					_, x := gossipval.ValidateAttestation(ctx, subnet, att, g)
+					return x
+				})
 				s.judge(g, "attestation", what+" delivered twice", expTiming, res, p)
 				s.res.Stat("fault_dup", 1)
 			}
@@ -536,7 +569,10 @@ func (s *sim) gossipSlot(slot uint64, blk *blockRec, parent *blockRec, hb *state
 			signed := &phase0.SignedAggregateAndProof{Message: msg, Signature: w.keys.sign(ki, signingRoot(msg.HashTreeRoot(spec, tree.GetHashFn()), aapDom))}
 			what := fmt.Sprintf("aggregate by validator %d (slot %d committee %d, %d votes)", vi, slot, ci, len(aggSigners))
 			run := func(m *phase0.SignedAggregateAndProof) (gossipval.GossipValidatorResult, *panicInfo) {
-				return validate(func() gossipval.GossipValidatorResult { _, x := gossipval.ValidateAggregateAndProof(ctx, m, g); return x })
+				return validate(func() gossipval.GossipValidatorResult {
+					_, x := gossipval.ValidateAggregateAndProof(ctx, m, g)
+					return x
+				})
 			}
 			switch r.Intn(8) {
 			case 0:
@@ -717,7 +753,10 @@ func (s *sim) gossipSlot(slot uint64, blk *blockRec, parent *blockRec, hb *state
 				m := &altair.SyncCommitteeMessage{Slot: common.Slot(slot), BeaconBlockRoot: head.root, ValidatorIndex: vi, Signature: sg}
 				what := fmt.Sprintf("sync message of validator %d (slot %d subnet %d)", vi, slot, subnet)
 				run := func(sn uint64, mm *altair.SyncCommitteeMessage) (gossipval.GossipValidatorResult, *panicInfo) {
-					return validate(func() gossipval.GossipValidatorResult { _, x := gossipval.ValidateSyncCommitteeSubnet(ctx, sn, mm, g); return x })
+					return validate(func() gossipval.GossipValidatorResult {
+						_, x := gossipval.ValidateSyncCommitteeSubnet(ctx, sn, mm, g)
+						return x
+					})
 				}
 				switch r.Intn(6) {
 				case 0:
@@ -775,7 +814,10 @@ func (s *sim) gossipSlot(slot uint64, blk *blockRec, parent *blockRec, hb *state
 			signed := &altair.SignedContributionAndProof{Message: cap, Signature: w.keys.sign(aggregator, signingRoot(cap.HashTreeRoot(spec, tree.GetHashFn()), capDom))}
 			what := fmt.Sprintf("sync contribution by validator %d (slot %d subcommittee %d)", aggVI, slot, subnet)
 			run := func(m *altair.SignedContributionAndProof) (gossipval.GossipValidatorResult, *panicInfo) {
-				return validate(func() gossipval.GossipValidatorResult { _, x := gossipval.ValidateSyncContribAndProof(ctx, m, g); return x })
+				return validate(func() gossipval.GossipValidatorResult {
+					_, x := gossipval.ValidateSyncContribAndProof(ctx, m, g)
+					return x
+				})
 			}
 			switch r.Intn(6) {
 			case 0:
